@@ -43,6 +43,7 @@ type ContCase struct {
 	Workers          int
 	Limit            uint32 // collision limit (0 = leave default)
 	SetLimit         bool
+	HipClasses       uint64 // > 0: colliding hash-input provider (Callbacks.HipClasses) under the default digester
 	BatchStart       int  // > 0: the root starts as a container built by the batch constructor from that many generated scalars
 	DrainedIsOneSlab bool // C09: after DrainAtEnd the container must occupy exactly one slab and nothing else may remain
 	DrainAtEnd       bool // after the phases: remove every element one by one (no bulk pop), then regrow a little
@@ -60,6 +61,9 @@ func (cc *ContCase) config() map[string]any {
 	}
 	if cc.Dig != nil {
 		m["digests"] = cc.Dig.String()
+	}
+	if cc.HipClasses > 0 {
+		m["hash_input_classes"] = cc.HipClasses
 	}
 	if cc.SetLimit {
 		m["collision_limit"] = cc.Limit
@@ -85,6 +89,7 @@ func runContainerCase(c *CaseCtx, cc *ContCase) (*CaseResult, *World, *Node) {
 	w.prof = cc.Prof
 	w.mon = cc.Mon
 	w.TolerateInlineLimit = true
+	w.cb.HipClasses = cc.HipClasses
 	res.Stats = w.stats
 	var root *Node
 	var err error
@@ -532,6 +537,12 @@ func runC02(c *CaseCtx) *CaseResult {
 	if c.Case%3 == 1 {
 		cc.Dig = &DigProfile{Salt: uint64(r.Int63()), OrderRevealing: true}
 		cc.Prof.KeySpace = 300
+	}
+	if c.Case%6 == 5 {
+		// the library's own default digester with a hash-input provider that covers only part of the key: keys of one
+		// class collide on all four levels (circlehash and blake3 as they are, pooled digesters included)
+		cc.HipClasses = uint64(12 + r.Intn(120))
+		cc.Prof.KeySpace = 500
 	}
 	if c.Case%6 == 2 {
 		// "any hash distribution": moderately colliding digests (the systematic collision matrix is C12)
